@@ -927,7 +927,9 @@ class AstToCfg(ast.NodeVisitor):
       self.visit(stmt)
     # The orelse is an optional continuation of the body.
     if node.orelse:
-      block_representative = node.orelse[0]
+      # The key only identifies the section; using the first statement of the
+      # block would collide with the section of an `if` that begins the block.
+      block_representative = (node, 'orelse')
       self.builder.enter_cond_section(block_representative)
       self.builder.new_cond_branch(block_representative)
       for stmt in node.orelse:
